@@ -50,4 +50,9 @@ theorem threshold_sites_use_groupK :
 theorem recover_calls_guarded :
     C13Sites.recoverSites.all (·.guardedByLenGeThreshold) = true ∧ C13Sites.recoverSites ≠ [] := by decide
 
+/-- `logical.groupSignGenerator` (used by `round1`) is statement-for-statement the code of
+    `model.GroupSignGenerator` (which the harness drives and `SignGen` models), locks aside. -/
+theorem sign_generator_twin_same :
+    C13Sites.twinMethods.all (·.2) = true ∧ C13Sites.twinMethods.length = 4 := by decide
+
 end Rangers.Props.C13Facts
